@@ -277,7 +277,7 @@ Lemma alias_preserves_stmt :
     forall q, q <> a -> dask_get apply (fuse_step d (FAlias r a)) q = dask_get apply d q.
 Proof. intros apply d r a. apply alias_preserves_value. Qed.
 
-Lemma fuse_steps_preserve_stmt :
+Lemma fuse_steps_with_renaming_preserve_stmt :
   forall (apply : positive -> list sval -> sval) (r : positive) (steps : list fstep) (d dn : dsk),
     NoDup (dkeys d) -> length (dask_sched d) = length d ->
     avoids r steps = true -> fuse_steps d steps = (dn, true) ->
@@ -296,3 +296,10 @@ Lemma inline_calls_per_key_stmt :
 Proof.
   intros apply d c vc L Hc Hs T V. rewrite (fuse_step_inline d c vc L). apply inline_trace; assumption.
 Qed.
+
+Lemma fuse_steps_preserve_stmt :
+  forall (apply : positive -> list sval -> sval) (r : positive) (steps : list fstep) (d dn : dsk),
+    NoDup (dkeys d) -> length (dask_sched d) = length d ->
+    inline_only steps = true -> avoids r steps = true -> fuse_steps d steps = (dn, true) ->
+    NoDup (dkeys dn) /\ length (dask_sched dn) = length dn /\ dask_get apply dn r = dask_get apply d r.
+Proof. exact inline_steps_preserve. Qed.
